@@ -31,7 +31,7 @@ Record rec := Rec {
   r_meta : meta         (* recording_metadata at the (latest) save *)
 }.
 
-Inductive exn := TypeError | NoSuchRecording | AssertionError | IndexError.
+Inductive exn := TypeError | NoSuchRecording | AssertionError | IndexError | KeyError | AttributeError.
 Inductive lres (A : Type) := Listed (a : A) | LRaises (e : exn) | OutOfFuel.
 Arguments Listed {A} a.
 Arguments LRaises {A} e.
@@ -240,6 +240,44 @@ Section Model.
     | e => e
     end.
 
+  (** The file cassette before /repo commits de4e2f4 ([exact = false]: no check of the category stored in
+      the file, only the file-name prefix test) and 9fc7a09 ([shared = false]: the filter was
+      [all(metadata[key] == recording.get_metadata()[key] for key in metadata.keys())], a per-key ==
+      that raises KeyError for a key the recording lacks).  Kept for the refuted witnesses only. *)
+  Fixpoint legacy_all_equal (f : meta) (m : meta) : lres bool :=
+    match f with
+    | [] => Listed true
+    | (k, v) :: f' => match lookup k m with
+                      | None => LRaises KeyError
+                      | Some x => if py_eq v x then legacy_all_equal f' m else Listed false
+                      end
+    end.
+  Definition legacy_passes (shared : bool) (f m : meta) : lres bool :=
+    if shared then match passes f m with Ans b => Listed b | RaisesTypeError => LRaises TypeError end
+    else match f with [] => Listed true | _ :: _ => legacy_all_equal f m end.
+  Fixpoint legacy_file_scan (exact shared : bool) (dir : list rec) (c : str) (f : meta) (listing : list rec)
+    : lres (list str) :=
+    match listing with
+    | [] => Listed []
+    | e :: l' =>
+        let fname := file_name e in
+        if negb (prefixb c fname) then legacy_file_scan exact shared dir c f l'
+        else match file_get dir (before_first DOT fname) with
+             | None => LRaises NoSuchRecording
+             | Some r =>
+                 if exact && negb (str_eqb (category_of (mem_id r)) c) then legacy_file_scan exact shared dir c f l'
+                 else match legacy_passes shared f (r_meta r) with
+                      | Listed false => legacy_file_scan exact shared dir c f l'
+                      | Listed true => match legacy_file_scan exact shared dir c f l' with
+                                       | Listed l => Listed (mem_id r :: l)
+                                       | e => e
+                                       end
+                      | LRaises e => LRaises e
+                      | OutOfFuel => OutOfFuel
+                      end
+             end
+    end.
+
   (** ------------------------------------------------------------------ S3 *)
   Variable fmt : Z -> str.                      (* strftime('%Y%m%d') of a day index (external) *)
   Variable enc : meta -> meta.                  (* json.loads(jsonpickle.encode(metadata)): what the content filter sees *)
@@ -326,6 +364,47 @@ Section Model.
     | OutOfFuel => OutOfFuel
     end.
   Definition s3_iter := s3_iter_fuel None.
+
+  (** S3 before /repo commit 91a8799: the id was parsed back from the key with
+      parse('tape_recorder_recordings/{key_prefix}metadata/{id}') - both fields non-empty and non-greedy, so
+      the key prefix ends at the first "metadata/" found at offset >= 1 of what follows the root folder.
+      With the default empty key prefix nothing matches: [result] is None and [result.named] raises
+      AttributeError; a key prefix that contains "metadata/" after its first character is cut short. *)
+  Fixpoint find_after (pat s : str) : option str :=
+    if prefixb pat s then Some (skipn (length pat) s)
+    else match s with [] => None | _ :: s' => find_after pat s' end.
+  Definition legacy_key_id (key : str) : lres str :=
+    let top := U"tape_recorder_recordings/" in
+    if prefixb top key then
+      match skipn (length top) key with
+      | [] => LRaises AttributeError
+      | _ :: t => match find_after (U"metadata/") t with
+                  | Some (x :: id) => Listed (x :: id)
+                  | _ => LRaises AttributeError
+                  end
+      end
+    else LRaises AttributeError.
+  Fixpoint legacy_ids (keys : list str) : lres (list str) :=
+    match keys with
+    | [] => Listed []
+    | k :: keys' => match legacy_key_id k with
+                    | Listed id => match legacy_ids keys' with Listed l => Listed (id :: l) | e => e end
+                    | LRaises e => LRaises e
+                    | OutOfFuel => OutOfFuel
+                    end
+    end.
+  Definition legacy_s3_iter (shuf : list rec -> list rec) (sched : nat -> nat) (kp : str)
+             (bucket : list rec) (c : str) (so eo : option Z) (now : Z) (f : meta) (limit : option nat)
+             (random : bool) : lres (list str) :=
+    match day_iterators shuf kp bucket c so eo now f limit random with
+    | Listed iters =>
+        match rr (rr_fuel iters) (if random then sched else (fun n => n)) limit iters 0 0 with
+        | Listed keys => legacy_ids keys
+        | e => e
+        end
+    | LRaises e => LRaises e
+    | OutOfFuel => OutOfFuel
+    end.
 
   (** ------------------------------------------------------------------ the default lookup *)
   Definition find_mem shuf s c (f : meta) limit random skip :=
